@@ -295,7 +295,22 @@ def F19():
     return not bad, "read-only reactor: " + "; ".join(out)
 
 
-ALL = dict(F10=F10, F12=F12, F17=F17, F18=F18, F19=F19, F1=F1, F2=F2, F3=F3, F4=F4, F5=F5, F6=F6, F7=F7, F8=F8, F9=F9, F14=F14)
+def F11():
+    from armi.physics.neutronics import crossSectionGroupManager as m
+
+    bad = []
+    for lab in m._ALLOWABLE_XS_TYPE_LIST:
+        n = m.getXSTypeNumberFromLabel(lab)
+        try:
+            back = m.getXSTypeLabelFromNumber(n)
+        except ValueError as e:
+            back = "ValueError"
+        if back != lab:
+            bad.append((lab, n, back))
+    return not bad, f"{len(bad)} of {len(m._ALLOWABLE_XS_TYPE_LIST)} admissible single-character type labels do not round trip, e.g. {bad[:3]} ... {bad[-2:]}"
+
+
+ALL = dict(F10=F10, F12=F12, F17=F17, F18=F18, F19=F19, F11=F11, F1=F1, F2=F2, F3=F3, F4=F4, F5=F5, F6=F6, F7=F7, F8=F8, F9=F9, F14=F14)
 
 if __name__ == "__main__":
     sys.path.insert(0, os.getcwd())
